@@ -61,10 +61,52 @@ def run_one(path):
         shutil.rmtree(scratch, ignore_errors=True)
 
 
+def run_seeded(d):
+    """seeded/<id>/patch.diff + meta.json (changes written by independent sub-agents)"""
+    import json
+
+    meta = json.load(open(os.path.join(d, "meta.json")))
+    text = open(os.path.join(d, "patch.diff")).read()
+    files = re.findall(r"^\+\+\+ b/(\S+)", text, re.M)
+    scratch = tempfile.mkdtemp(prefix="stir-seeded-")
+    try:
+        maps = []
+        for rel in files:
+            dst = os.path.join(scratch, rel)
+            os.makedirs(os.path.dirname(dst), exist_ok=True)
+            shutil.copy(os.path.join(REPO, rel), dst)
+            maps.append("%s=%s" % (os.path.join(REPO, rel), dst))
+        p = subprocess.run(["patch", "-p1", "-s", "-d", scratch, "-i", os.path.abspath(os.path.join(d, "patch.diff"))], capture_output=True, text=True)
+        if p.returncode != 0:
+            return "PATCH-FAILED", meta, p.stdout + p.stderr
+        r = subprocess.run([os.path.join(HERE, "check"), meta["property"], "--overlay", ",".join(maps)], capture_output=True, text=True, cwd=HERE)
+        exp = meta.get("expect") or ""
+        hit = [l for l in r.stdout.splitlines() if l.startswith("  ") and exp in l]
+        if r.returncode == 1 and hit:
+            return ("CAUGHT" if meta.get("detected_by") else "CAUGHT(unexpected)"), meta, hit[0].strip()
+        if r.returncode == 2:
+            return "BROKEN", meta, r.stdout[-400:]
+        return ("MISSED(known)" if not meta.get("detected_by") else "MISSED(exit %d)" % r.returncode), meta, ""
+    finally:
+        shutil.rmtree(scratch, ignore_errors=True)
+
+
 def main():
     sel = sys.argv[1:] or None
     bad = 0
     n = 0
+    sd = os.path.join(HERE, "seeded")
+    for name in sorted(os.listdir(sd)) if os.path.isdir(sd) else []:
+        d = os.path.join(sd, name)
+        if not os.path.exists(os.path.join(d, "meta.json")):
+            continue
+        if sel and not any(s in d for s in sel):
+            continue
+        status, meta, info = run_seeded(d)
+        n += 1
+        if status not in ("CAUGHT", "MISSED(known)"):
+            bad += 1
+        print("%-14s %s seeded/%s  %s" % (status, meta.get("property"), name, info[:300]))
     for root, _d, fs in sorted(os.walk(os.path.join(HERE, "mutants"))):
         for fn in sorted(fs):
             if not fn.endswith(".patch"):
